@@ -23,7 +23,7 @@ Definition loky_effective_n_jobs (mp_none : bool) (cpus : Z) (daemon : bool) (de
 
 (* MultiprocessingBackend.effective_n_jobs *)
 Definition mp_effective_n_jobs (mp_none : bool) (cpus : Z) (daemon : bool) (depth : Z) (main_thread : bool) (level : Z) (n_jobs : Z) : result Z :=
-  if mp_none then (Ok ((1))) else (if daemon then (Ok ((1))) else (if (level =? (0)) then (pool_effective_n_jobs mp_none cpus n_jobs) else (if (depth >? (0)) then (Ok ((1))) else (if (negb main_thread) then (Ok ((1))) else (pool_effective_n_jobs mp_none cpus n_jobs))))).
+  if mp_none then (Ok ((1))) else (if daemon then (Ok ((1))) else (if (depth >? (0)) then (Ok ((1))) else (if (negb (main_thread || (level =? (0)))) then (Ok ((1))) else (pool_effective_n_jobs mp_none cpus n_jobs)))).
 
 (* loky.backend.context._cpu_count_user *)
 Definition cpu_count_user (os_cpu_count : Z) (aff : option Z) (cg : option Z) (loky_env : option Z) : result Z :=
